@@ -4,8 +4,10 @@ protected datagrams; observed at the readers' topic caches, writer proxies and t
 from pipeline import run_pipeline
 
 TIERS = {
-    "quick": dict(mc=[("MC_SecGate_q.cfg", 8)], replay_limit=24000, random=dict(runs=400, events=40)),
-    "thorough": dict(mc=[("MC_SecGate_t.cfg", 12)], replay_limit=250000, random=dict(runs=6000, events=60)),
+    # *_q / *_t: every reader matched to its peer writer only; *_qx / *_tx: matching configurations in which a writer
+    # EntityId is known to several local readers (fan-out of writer submessages without reader id)
+    "quick": dict(mc=[("MC_SecGate_q.cfg", 8), ("MC_SecGate_qx.cfg", 8)], replay_limit=32000, random=dict(runs=400, events=40)),
+    "thorough": dict(mc=[("MC_SecGate_t.cfg", 12), ("MC_SecGate_tx.cfg", 12)], replay_limit=330000, random=dict(runs=6000, events=60)),
 }
 ASSUME = [
     "datagram model bounded by the constants in spec/MC_SecGate_*.cfg (destinations, kinds, governance documents, "
@@ -17,6 +19,9 @@ ASSUME = [
     "different submessages do not decode) is C16's subject and only relied upon for the non-vacuity counts",
     "observation: topic cache sequence numbers, writer-proxy received/irrelevant marks (GAP), accepted HEARTBEAT count, "
     "acknack channel; HEARTBEAT_FRAG and NACK_FRAG are not observable there and not exercised",
+    "matching configurations (MC_SecGate_*x.cfg, random runs): local readers additionally matched to writers of a second remote "
+    "participant that carry the EntityId of another topic's peer writer (rotations: two candidate readers per writer id; full: "
+    "all); the second participant has no key material, so flow from it is demanded only for readers needing no protection",
     "delivery of correctly protected traffic is not demanded (C17 does not state it); it is counted as a vacuity guard",
 ]
 
